@@ -176,7 +176,12 @@ func TestVerifC19(t *testing.T) {
 	scs = append(scs, sc{c19Params{0, 1, false, false, false, true, false}, 2}, sc{c19Params{0, 2, true, false, true, true, false}, 1})
 	scs = append(scs, sc{c19Params{1, 1, false, false, false, false, true}, 1}, sc{c19Params{0, 2, true, false, false, true, true}, 1})
 	if vres.Thorough() {
-		scs = []sc{{c19Params{0, 1, false, false, false, true, false}, 3}, {c19Params{0, 2, true, false, true, true, false}, 2}, {c19Params{1, 1, false, false, false, false, false}, 3}, {c19Params{2, 1, false, false, false, false, false}, 2}, {c19Params{1, 2, false, false, false, false, false}, 2}, {c19Params{1, 1, true, false, false, false, false}, 2}, {c19Params{0, 2, true, false, false, false, false}, 2}, {c19Params{2, 2, true, false, false, false, false}, 1}, {c19Params{1, 1, false, true, false, false, false}, 3}, {c19Params{2, 2, false, true, false, false, false}, 2}, {c19Params{0, 1, false, false, true, false, false}, 3}, {c19Params{1, 2, true, false, true, false, false}, 2}}
+		// the quick scenarios as they are, the smaller ones once more with one more preemption,
+		// and two larger mixes at one preemption (sizes measured: the whole tier stays well
+		// inside its deadline on a loaded machine)
+		scs = append(scs, sc{c19Params{0, 1, false, false, false, true, false}, 3}, sc{c19Params{0, 1, false, false, true, false, false}, 3}, sc{c19Params{1, 1, false, false, false, false, false}, 3},
+			sc{c19Params{1, 1, false, true, false, false, false}, 3}, sc{c19Params{0, 2, true, false, false, false, false}, 2}, sc{c19Params{1, 2, false, true, false, false, false}, 2},
+			sc{c19Params{2, 1, false, false, false, false, false}, 3}, sc{c19Params{2, 2, true, false, false, false, false}, 1}, sc{c19Params{1, 2, true, false, true, false, false}, 1})
 	}
 	if vres.Thorough() {
 		scs = append(scs, sc{c19Params{1, 1, false, false, false, false, true}, 2}, sc{c19Params{0, 2, true, false, true, true, true}, 2})
